@@ -9,7 +9,8 @@
        as bytes (Spec/Binlog.v: wire events, grammar, denotation `abs`/`denote`, wf_binlog;
        Proofs/DecodeProofs.v: what `decode` returns for each wire event; Proofs/Capstone.v: induction over the
        grammar).  It is universally quantified over the configuration (CRC32 on/off, rows v1/v2, 4/6-byte table
-       ids, header length 19..255, size table 35..255 entries), the mapper, the oracles and the start position,
+       ids, header length 19..255, size table 35..255 entries, any padding pattern in the unused high bits of the
+       last byte of every bitmap: c_pad_cols / c_pad_null / c_pad_tm), the mapper, the oracles and the start position,
        allows GTID / anonymous GTID / previous-GTIDs / heartbeat / other ignorable events and repeated format
        descriptions between any two events, and covers every column type with every NULL / absent pattern
        (JSON columns: NULL or absent only - Spec.Values has no JSON value; JSON values are C14).
@@ -92,7 +93,10 @@ Proof. repeat split; vm_compute; reflexivity. Qed.
         of the first table (NULL and absent columns, different presence patterns before / after), an ignorable
         event and a SAVEPOINT statement, two rows events for the second table (a large statement split in two), closed by XID; a heartbeat;
         a DDL; a rotation followed by the next file's format description; an autocommitted table map + rows ---- *)
-Definition e_cfg : cfg := {| c_crc := true; c_v2 := true; c_tid4 := false; c_hlen := 23; c_nsizes := 40 |}.
+(* padding bits: set in the presence bitmaps and the rows' NULL bitmaps (as a master leaves them), a mixed pattern in
+   the table maps; both tables have column counts (5, 3) that are not multiples of 8 and the images are partial *)
+Definition e_cfg : cfg := {| c_crc := true; c_v2 := true; c_tid4 := false; c_hlen := 23; c_nsizes := 40;
+                             c_pad_cols := 255; c_pad_null := 255; c_pad_tm := 170 |}.
 Definition e_ffmt (b x : Z) : bytes := [49].
 Definition e_tz (x : Z) : Z := 0.
 Definition e_jsonp (b : bytes) : res bytes := Err EJson.
